@@ -1,9 +1,14 @@
 package bytesh
 
 import (
+	"bufio"
+	"bytes"
 	"fmt"
+	"io"
 	"math"
+	"strings"
 	"testing"
+	"testing/iotest"
 
 	"github.com/pinealctx/neptune/bytex"
 	"pgregory.net/rapid"
@@ -21,6 +26,7 @@ type item struct {
 }
 
 type C10Scenario struct {
+	Source   string    `json:"source"` // stream/arbitrary: faulty | bytes.Buffer | bytes.Reader | strings.Reader | bufio | onebyte | halfreader | dataerr
 	Class    string    `json:"class"` // roundtrip | stream | arbitrary
 	Items    []item    `json:"items"`
 	Plan     FaultPlan `json:"plan"`
@@ -72,12 +78,48 @@ func drawPlan(rt *rapid.T, n int) FaultPlan {
 		p.TruncAt = rapid.IntRange(0, n).Draw(rt, "trunc")
 	case 1:
 		p.FailAt = rapid.IntRange(0, n).Draw(rt, "failat")
+		p.ErrWithData = rapid.Bool().Draw(rt, "errwithdata")
 	}
 	return p
 }
 
+var sourceKinds = []string{"faulty", "faulty", "faulty", "bytes.Buffer", "bytes.Reader", "strings.Reader", "bufio", "onebyte", "halfreader", "dataerr"}
+
+// mkSource builds the io.Reader handed to the stream reader. The standard-library readers matter as much as the
+// simulated one: code may special-case a concrete reader type.
+func mkSource(kind string, data []byte, plan FaultPlan) (io.Reader, *FaultyReader) {
+	if plan.TruncAt >= 0 && plan.TruncAt < len(data) {
+		data = data[:plan.TruncAt]
+	}
+	if plan.FailAt >= 0 && kind != "faulty" {
+		kind = "faulty" // only the simulated reader can fail after k bytes
+	}
+	cp := append([]byte{}, data...)
+	switch kind {
+	case "bytes.Buffer":
+		return bytes.NewBuffer(cp), nil
+	case "bytes.Reader":
+		return bytes.NewReader(cp), nil
+	case "strings.Reader":
+		return strings.NewReader(string(cp)), nil
+	case "bufio":
+		return bufio.NewReaderSize(bytes.NewReader(cp), 16), nil
+	case "onebyte":
+		return iotest.OneByteReader(bytes.NewReader(cp)), nil
+	case "halfreader":
+		return iotest.HalfReader(bytes.NewReader(cp)), nil
+	case "dataerr":
+		return iotest.DataErrReader(bytes.NewReader(cp)), nil
+	}
+	p2 := plan
+	p2.TruncAt = -1
+	fr := NewFaultyReader(cp, p2)
+	return fr, fr
+}
+
 func drawC10(rt *rapid.T) interface{} {
 	sc := &C10Scenario{RwPos: -1}
+	sc.Source = rapid.SampledFrom(sourceKinds).Draw(rt, "source")
 	sc.Class = rapid.SampledFrom([]string{"roundtrip", "stream", "stream", "arbitrary"}).Draw(rt, "class")
 	switch sc.Class {
 	case "roundtrip":
@@ -380,8 +422,9 @@ func runC10(t *testing.T, sci interface{}, keepLog bool) (o *hx.Outcome) {
 			o.Counts["read-error-planned"]++
 		}
 		ref := bytex.NewReadableBufferX(append([]byte{}, data[:avail]...))
-		fr := NewFaultyReader(data, sc.Plan)
-		rx := bytex.NewReaderX(fr)
+		src, fr := mkSource(sc.Source, data, sc.Plan)
+		rx := bytex.NewReaderX(src)
+		o.Counts["source-"+sc.Source]++
 		for i, it := range written {
 			want, werr := read(ref, ref, nil, it)
 			got, gerr := read(rx, nil, rx, it)
@@ -403,13 +446,16 @@ func runC10(t *testing.T, sci interface{}, keepLog bool) (o *hx.Outcome) {
 				return
 			}
 		}
-		for k, v := range fr.Fired {
-			o.Counts[k] += v
+		if fr != nil {
+			for k, v := range fr.Fired {
+				o.Counts[k] += v
+			}
 		}
 	default:
 		ref := bytex.NewReadableBufferX(append([]byte{}, sc.Raw...))
-		fr := NewFaultyReader(sc.Raw, sc.Plan)
-		rx := bytex.NewReaderX(fr)
+		src, fr := mkSource(sc.Source, sc.Raw, sc.Plan)
+		rx := bytex.NewReaderX(src)
+		o.Counts["source-"+sc.Source]++
 		for i, it := range sc.Items {
 			want, werr := read(ref, ref, nil, it)
 			got, gerr := read(rx, nil, rx, it)
@@ -427,8 +473,10 @@ func runC10(t *testing.T, sci interface{}, keepLog bool) (o *hx.Outcome) {
 				return
 			}
 		}
-		for k, v := range fr.Fired {
-			o.Counts[k] += v
+		if fr != nil {
+			for k, v := range fr.Fired {
+				o.Counts[k] += v
+			}
 		}
 	}
 	return o
